@@ -667,6 +667,9 @@ fn ev_c07_key(c: &crate::props::c07::KeyCase) -> Outcome {
 fn ev_c07_init(c: &crate::props::c07::InitCase) -> Outcome {
     panics_only("C07.init", crate::props::c07::eval_init(c))
 }
+fn ev_c18_meta(c: &crate::props::c18::MetaCase) -> Outcome {
+    panics_only("C18.metadata", crate::props::c18::eval_meta(c))
+}
 fn ev_long(c: &crate::scenario::ValidCase) -> Outcome {
     panics_only("long_recordings", crate::props::c01::eval(c))
 }
@@ -711,6 +714,7 @@ pub fn def() -> PropertyDef {
             Box::new(PSub { name: "borrowed_c16_timeline", quick: 6000, thorough: 150000, strat: crate::props::c16::timeline_strategy, eval: ev_c16_timeline }),
             Box::new(PSub { name: "borrowed_c07_keyframes", quick: 12000, thorough: 400000, strat: s_key_any, eval: ev_c07_key }),
             Box::new(PSub { name: "borrowed_c07_init", quick: 6000, thorough: 150000, strat: crate::props::c07::s_init, eval: ev_c07_init }),
+            Box::new(PSub { name: "borrowed_c18_metadata", quick: 6000, thorough: 150000, strat: crate::props::c18::meta_strategy, eval: ev_c18_meta }),
             Box::new(LSub { name: "long_recordings", cases: crate::scenario::long_cases_all, eval: ev_long, note: crate::scenario::LONG_NOTE }),
             Box::new(LSub { name: "four_gib_limit", cases: limit_cases, eval: ev_limit, note: "C16's four_gib_limit cases (payload ending just below 2^32 bytes), judged for panics and overflow only" }),
         ],
